@@ -1,5 +1,6 @@
 import Frp.Driver.Proto
 import Frp.Props.C20
+import Frp.Props.C20Client
 /-
   Driver engine "nat": replays the harness trace (harness/eng_nat.go) on the NatHole model and
   evaluates the C20 predicates on the implementation's own responses.
@@ -50,6 +51,30 @@ def errOf (s : String) : Option ErrKind :=
   if s = "none" then some .none else if s = "noexist" then some .noExist else if s = "auth" then some .authFailed
   else if s = "notallowed" then some .notAllowed else if s = "cc" then some .classifyClient
   else if s = "cv" then some .classifyVisitor else if s = "notifytimeout" then some .notifyTimeout else none
+
+/-- harness `natMutSig`: the supplied SignKey derived from the right one.  x as it is, p<k> first k characters,
+    t<k> without the first k, s<hex> followed by bytes, l<hex> a literal instead, u upper case, d<k> without
+    character k, f<k> character k replaced by another hex digit, g<k> first k characters then 'z's -/
+def mutSig (mu : String) : Option (Str → Str) :=
+  match mu.toList with
+  | [] => some id
+  | c :: arg =>
+    let a := String.ofList arg
+    let k := fun (sig : Str) => min (a.toNat?.getD 0) sig.length
+    let unh : Str := (unhexAux arg).getD []
+    if c = 'x' then some id
+    else if c = 'p' then some (fun sig => sig.take (k sig))
+    else if c = 't' then some (fun sig => sig.drop (k sig))
+    else if c = 's' then some (fun sig => sig ++ unh)
+    else if c = 'l' then some (fun _ => unh)
+    else if c = 'u' then some (fun sig => sig.map (fun b => if 97 ≤ b ∧ b ≤ 122 then b - 32 else b))
+    else if c = 'd' then some (fun sig => sig.take (k sig) ++ sig.drop (k sig + 1))
+    else if c = 'f' then some (fun sig =>
+      match sig[k sig]? with
+      | some b => sig.take (k sig) ++ [if b = 48 then 49 else 48] ++ sig.drop (k sig + 1)
+      | none => sig)
+    else if c = 'g' then some (fun sig => sig.take (k sig) ++ List.replicate (sig.length - k sig) 122)
+    else none
 
 def portsStr (l : List (Int × Int)) : String :=
   if l.isEmpty then "-" else "+".intercalate (l.map (fun r => s!"{r.1}:{r.2}"))
@@ -317,23 +342,34 @@ def stepCore (st : St) (tok : List String) (impl : String) : St × Verdict :=
       | some (_, [(_, r)]) => (st, verdictOf (if r.error = .none then "ok" else errStr r.error) impl)
       | _ => (st, .bad "precheck model")
     | _, _ => (st, .bad "precheck")
-  | ["visit", id, n, sk, tsu, tsm, u, pr, ma, aa] =>
-    match id.toNat?, unhx n, unhx sk, tsu.toInt?, tsm.toInt?, unhx u, unhx pr, unlist ma, unlist aa with
-    | some id, some n, some sk, some tsu, some tsm, some u, some pr, some ma, some aa =>
-      let vm : VMsg := { tid := Str.ofString s!"tv{id}", proxyName := n, protocol := pr,
-                         signed := authInput sk tsu, timestamp := tsm, mapped := ma, assisted := aa }
-      match NatHole.step st.C (.visitorLookup (sidOf id) vm (tvOf id) u) with
+  | "visit" :: id :: n :: sk :: tsu :: tsm :: u :: pr :: ma :: aa :: mus =>
+    match id.toNat?, unhx n, unhx sk, tsu.toInt?, tsm.toInt?, unhx u, unhx pr, unlist ma, unlist aa,
+          mutSig (mus.headD "x") with
+    | some id, some n, some sk, some tsu, some tsm, some u, some pr, some ma, some aa, some mutate =>
+      -- the SignKey string the harness supplied: the signature for (sk, tsu) — a real MD5 — put through the
+      -- op's mutation; the model compares it, as HandleVisitor does, with the signature for the PROXY's secret
+      -- and the message's timestamp (NatSign.visitorLookupW = NatHole.step on the abstracted message:
+      -- C20.visitorLookupW_refines)
+      let wm : NatSign.WVMsg := { tid := Str.ofString s!"tv{id}", proxyName := n, protocol := pr,
+                                  signKey := mutate (NatSign.authKey sk tsu), timestamp := tsm, mapped := ma, assisted := aa }
+      let vm : VMsg := wm.abs st.C.cfgs
+      match NatSign.visitorLookupW st.C (sidOf id) wm (tvOf id) u with
       | some (C', o) =>
         let created := o.isEmpty
         let ms := match o with
           | [] => "created"
           | (_, r) :: _ => "err:" ++ errStr r.error
-        -- property: a session may be created only for a registered proxy and a correct signature
-        let prop := if impl = "created" then some created else some true
+        -- property (C20.session_created_only_exact_signature, evaluated on the implementation's own answer): a
+        -- session may be created only for a registered proxy, an allowed user and a SignKey that equals
+        -- hex(md5(secret ++ timestamp)) byte for byte
+        let exact := match aget st.C.cfgs n with
+          | some cfg => wm.signKey == NatSign.authKey cfg.sk tsm && userAllowed cfg.allow u
+          | none => false
+        let prop := if impl = "created" then some (created && exact) else some true
         (({ st with C := C', outbox := st.outbox ++ o }).setInfo { id := id, vm := vm, created := created },
          verdictOf ms impl prop)
       | none => (st, .bad "visit: sid reused")
-    | _, _, _, _, _, _, _, _, _ => (st, .bad "visit")
+    | _, _, _, _, _, _, _, _, _, _ => (st, .bad "visit")
   | ["notify", n] =>
     match unhx n with
     | some n =>
